@@ -34,10 +34,16 @@ reg('C12', 'propchecks.treespec', 'proof', [('Bashlex.C12.C12_partial', C12M), (
 QC = 'Bashlex.Proofs.QCongr'
 T6 = [('Bashlex.Q.run_congr', QC), ('Bashlex.Q.run_strict_irrelevant', QC), ('Bashlex.Q.run_proceed_irrelevant', QC),
       ('Bashlex.Q.optStrict_asked_of_ne', QC), ('Bashlex.Q.optProceed_asked_of_ne', QC)]
-reg('C13', 'propchecks.relprops', 'proof', [('Bashlex.Q.run_prefix', QC), ('Bashlex.runParser_prefix', QC), ('Bashlex.Q.run_prefix_idx', QC)] + T1[:1], [ASCII, DEPTH, CORR])
+C13M = 'Bashlex.Props.C13'
+T_C13 = [('Bashlex.C13.' + t, C13M) for t in ['C13_independence', 'C13_first_part', 'C13_first_part_noEOF', 'C13_partial', 'C13_partial_exn', 'C13_partial_conditional',
+         'parse_unfold', 'parseLoop_eq', 'Loop.det', 'Loop.total', 'ofInput_prefix']] + [('Bashlex.nextIndex_shift', C13M), ('Bashlex.Node.shift_shift', C13M), ('Bashlex.Node.lastHeredocEnd_shift', C13M)]
+reg('C13', 'propchecks.relprops', 'proof', T_C13 + [('Bashlex.Q.run_prefix', QC), ('Bashlex.runParser_prefix', QC), ('Bashlex.Q.run_prefix_idx', QC)] + T1[:1], [ASCII, DEPTH, CORR,
+    'C13_independence: for A whose runs are local (no read beyond its own text: parseLocal, decidable; implied by "no _getc returned None") parse(A ++ R) = parse(A) followed by the shifted parts of a '
+    'fresh parse of the rest from the restart index; only that index flows between top-level commands. Replacing the rest by B itself when blank lines precede it (BlankSkip: one parser run commutes '
+    'with translation past a blank prefix) is an explicit hypothesis of C13_partial_conditional and is decided per input'])
 reg('C14', 'propchecks.relprops', 'proof', T1[:1], [ASCII, DEPTH, CORR])
 reg('C16', 'propchecks.relprops', 'proof', T1[:1], [ASCII, DEPTH, CORR])
-reg('C17', 'propchecks.relprops', 'proof', T6 + [('Bashlex.parse_strict_irrelevant', QC), ('Bashlex.parse_proceed_irrelevant', QC),
+reg('C17', 'propchecks.relprops', 'proof', [('Bashlex.C13.' + t, C13M) for t in ['parsesingle_eq_head', 'parsesingle_exn_iff', 'parse_exn_of_parsesingle_exn', 'parsesingle_of_parse_exn']] + T6 + [('Bashlex.parse_strict_irrelevant', QC), ('Bashlex.parse_proceed_irrelevant', QC),
       ('Bashlex.parsesingle_strict_irrelevant', QC), ('Bashlex.parsesingle_proceed_irrelevant', QC)], [ASCII, DEPTH, CORR])
 
 reg('C11', 'propchecks.c11', 'proof', T1[:1] + [('Bashlex.Q.run_touched_irrelevant', QC), ('Bashlex.History.results_eq_solo', QC)], [ASCII, DEPTH, CORR])
